@@ -121,4 +121,64 @@ class CorePart:
             ctx.label("mixed-preferred-and-other-sources")
 
 
-PARTS = [CorePart()]
+class CliPart:
+    """whatshap phase on deep read sets: reads handed to the solver for one family never span a variant more than k times"""
+    name = "cli"
+    budget = {"quick": 640, "thorough": 12000}
+
+    def strategy(self, tier):
+        from vlib import pipeline as P
+        from props.c03_components import gen_trio_case
+
+        @st.composite
+        def case(draw):
+            fam = draw(st.sampled_from(["single", "single", "trio"]))
+            if fam == "trio":
+                c = gen_trio_case(draw, depth=(6, 30), read_len=(60, 300), paired_share=20, skip_share=5, clip_share=0, eqx_share=0,
+                                  ncontigs=(1, 1), length=(400, 900))
+                k = draw(st.sampled_from([3, 4, 5, 6, 9, 15]))
+            else:
+                c = P.gen_case(draw, nsamples=(1, 2), depth=(6, 40), read_len=(60, 300), paired_share=20, skip_share=5,
+                               clip_share=0, eqx_share=0, ncontigs=(1, 1))
+                k = draw(st.sampled_from([1, 2, 3, 5, 8, 15]))
+            c["family"] = fam
+            c["k"] = k
+            return c
+        return case()
+
+    def run(self, case, ctx):
+        import os
+        from vlib import pipeline as P, genome as G
+        d = ctx.tmp()
+        paths, reads = P.materialise(case, d)
+        if "bam" not in paths:
+            return
+        kw = {}
+        if case["family"] == "trio":
+            kw["ped"] = G.write_ped([["father", "mother", "child"]], os.path.join(d, "trio.ped"))
+        out, trace = P.run_phase(d, paths["vcf"], [paths["bam"]], reference=paths["ref"], max_coverage=case["k"], **kw)
+        k = case["k"]
+        nt = False
+        for t in trace:
+            pos = t["accessible_positions"]
+            idx = {p: i for i, p in enumerate(pos)}
+            cov = [0] * len(pos)
+            for r in t["reads"]:
+                a, b = idx[r["variants"][0][0]], idx[r["variants"][-1][0]]
+                if a > b:
+                    ctx.violation("cli:unsorted-read", "read %s has unsorted variants" % r["name"])
+                for i in range(a, b + 1):
+                    cov[i] += 1
+            ctx.unit("solver-instances")
+            if cov and max(cov) > k:
+                ctx.violation("cli:cap-exceeded", "family %r on %s: %d reads span a variant, --internal-downsampling is %d (per sample %d)" % (
+                    t["family"], t["chromosome"], max(cov), k, t["max_coverage_per_sample"]))
+            if cov and max(cov) >= max(1, k // len(t["family"])):
+                nt = True
+            if t["max_coverage"] != k:
+                ctx.violation("cli:trace-cap", "trace reports cap %r, option was %r" % (t["max_coverage"], k))
+        ctx.nontrivial(nt)
+        ctx.label("family-" + case["family"])
+
+
+PARTS = [CorePart(), CliPart()]
